@@ -97,7 +97,8 @@ def idp_conf(spec, metadata_xml=()):
     if spec.get('slo'):
         idp['endpoints']['single_logout_service'] = [tuple(e) for e in spec['slo']]
     for k in ('policy', 'want_authn_requests_signed', 'sign_response', 'sign_assertion', 'encrypt_assertion', 'scope', 'name_id_format',
-              'want_authn_requests_only_with_valid_cert', 'subject_data', 'session_storage', 'domain', 'name_qualifier'):
+              'want_authn_requests_only_with_valid_cert', 'subject_data', 'session_storage', 'domain', 'name_qualifier',
+              'verify_encrypt_cert_assertion', 'verify_encrypt_cert_advice'):
         if k in spec:
             idp[k] = spec[k]
     conf = {'entityid': spec['entityid'], 'service': {'idp': idp}, 'xmlsec_binary': XMLSEC,
